@@ -2,7 +2,7 @@ SPEC = dict(
     id="C08",
     bin="c08",
     coq_dir="C08",
-    coq_targets=["C08/Proofs.vo", "C08/Iter4.vo", "C08/Fits4.vo", "C08/Var14.vo", "C08/Reader.vo", "C08/Examples.vo"],
+    coq_targets=["C08/Proofs.vo", "C08/Iter4.vo", "C08/Fits4.vo", "C08/Var14.vo", "C08/Reader.vo", "C08/Iter14.vo", "C08/Examples.vo"],
     allowed_axioms=[],
     level_text=("Unbounded Coq theorems (all finite mappings over U+0000..U+10FFFF to 16-bit non-zero glyph ids, all code points) about an "
                 "executable model of write-fonts Cmap::from_mappings (sort, dedup, conflict detection, Format4SegmentComputer with its "
@@ -29,7 +29,11 @@ SPEC = dict(
                 "cmap4_reader_total (the u16/usize subtraction panic sites of map_codepoint and Cmap4Iter are unreachable for every table), "
                 "cmap4_map_sound_any (any answer is the format's value of a segment containing c), cmap4_lookup_value / cmap4_lookup_out_of_array "
                 "(offsets outside the glyph array answer None), cmap4_map_sorted_any (complete on sorted arrays), cmap4_iter_asc_any (strictly ascending on every table); "
-                "~450 arbitrary/malformed tables per run are evaluated through the checked model as well."),
+                "~450 arbitrary/malformed tables per run are evaluated through the checked model as well. Round 5: cmap14_iter_exact "
+                "(Cmap14Iter / Charmap::variant_mappings = exactly the triples map_variant answers, each (code point, selector) once, default ranges expanded to "
+                "start..=start+additionalCount) for well-formed tables with disjoint default/non-default entries; the format-14 stream covers additionalCount 0/1/254/255 and "
+                "ranges ending at U+10FFFF, enumerated through Cmap14::iter and Charmap::variant_mappings; every call into the code under test runs under catch "
+                "(a panic is an oracle failure keyed panic:<file:line>:<msg> with its input)."),
     level_note=("Trusted: Coq kernel; the hand-written model coq/C08/Model.v at the level of decoded arrays (its agreement with the Rust code is "
                 "checked by vm_compute on every run, not proved; the byte codec of the compiled table is C04's business and is exercised here only "
                 "through dump_table -> read); the harness generator. Theorems are conditional on from_mappings returning a table: it still panics for BMP mappings whose format-4 "
@@ -39,7 +43,7 @@ SPEC = dict(
               "read-fonts/src/tables/cmap.rs: Cmap::map_codepoint, Cmap4::{map_codepoint,lookup_glyph_id,code_range}, Cmap4Iter, Cmap12::{map_codepoint,lookup_glyph_id,group}, Cmap12Iter (+Cmap12IterLimits), Cmap14::map_variant (textbook binary search over well-formed tables)",
               "skrifa/src/charmap.rs: MappingSelection::new (codepoint subtable choice), Charmap::{map,mappings}, CodepointSubtable::{map,map_impl}"],
     not_covered=["a closed-form (segment-independent) description of fits4: fits4 is computed from the segments the segment computer chooses; only the sharp isolated-points limit (8188 fit, 8189 do not) is proved as an instance",
-                 "Cmap14Iter / Charmap::variant_mappings and Cmap12Iter with arbitrary limits on malformed tables: model (Cmap12Iter) + correspondence + oracle only",
+                 "Cmap12Iter with arbitrary limits on malformed group arrays: model + correspondence + oracle only",
                  "format-12 reader on malformed group arrays (overlap clamp, u32 wrap, limits): model + correspondence only; it has no arithmetic panic sites (wrapping/saturating ops)",
                  "Cmap14::map_variant on UNSORTED selector tables: core::slice::binary_search_by's probe order is a std implementation detail; only well-formed tables are modelled/generated",
                  "optimality of the segment computer (not required by the property); byte-level layout of the compiled table (C04); Cmap::closure_glyphs; symbol-encoded fonts (PUA remap) are modelled but never produced by from_mappings"],
